@@ -142,7 +142,19 @@ static bool load_replay(const char* path) {
   if (const char* p = find_key(s, "seed")) O.seed = strtoull(p, nullptr, 10);
   if (const char* p = find_key(s, "run")) O.first = strtoull(p, nullptr, 10);
   if (const char* p = find_key(s, "step_cap")) O.step_cap = strtoull(p, nullptr, 10);
-  if (const char* p = find_key(s, "params")) { O.replay_params = scan_string(p); O.params.clear(); parse_params(O.replay_params); }
+  if (const char* p = find_key(s, "params")) {
+    // the replay's parameters win; extra command-line ones (trace=1, optrace=1) are kept
+    MVec<Opts::KV> cli;
+    for (size_t i = 0; i < O.params.size(); ++i) cli.push(O.params[i]);
+    O.replay_params = scan_string(p);
+    O.params.clear();
+    parse_params(O.replay_params);
+    for (size_t i = 0; i < cli.size(); ++i) {
+      bool have = false;
+      for (size_t j = 0; j < O.params.size(); ++j) have |= !strcmp(O.params[j].k, cli[i].k);
+      if (!have) O.params.push(cli[i]);
+    }
+  }
   R.tape.clear(); R.decisions.clear(); R.faults.clear();
   if (const char* p = find_key(s, "tape")) {
     p = strchr(p, '[') + 1;
